@@ -62,6 +62,25 @@ impl PanicInfo {
             f
         }
     }
+    /// stable identification of the panic site: repo file if it fired in /repo, otherwise the
+    /// dependency file (frames inside /repo move with inlining and are kept out of signatures)
+    pub fn site(&self) -> String {
+        let f = self.location.split(':').next().unwrap_or("").to_string();
+        if let Some(i) = f.find("/repo/") {
+            f[i + 6..].to_string()
+        } else if let Some(i) = f.find("registry/src/") {
+            let rest = &f[i + 13..];
+            format!("dep:{}", rest.splitn(2, '/').nth(1).unwrap_or(rest))
+        } else {
+            f
+        }
+    }
+    pub fn describe(&self) -> String {
+        match &self.repo_frame {
+            Some((func, file)) if !self.location.contains("/repo/") => format!("{} at {} (called from {func} in {file})", self.message, self.location),
+            _ => format!("{} at {}", self.message, self.location),
+        }
+    }
     pub fn class(&self) -> String {
         // strip numbers from the message so the class is stable
         let mut out = String::new();
